@@ -34,7 +34,8 @@ func runC19(c *eng.Ctx, thorough bool) {
 	if f := c.Fn("vault.(*Core).handleRequest"); f != nil {
 		c.Clause("R2", "C19.2")
 		dispatch := eng.AsInstrs(eng.Calls(f, `vault\.\(\*Core\)\.doRoutingIfApproved$`))
-		use := eng.GCallOK(f, `vault\.\(\*TokenStore\)\.UseToken$`)
+		usePat := fwdPat(f, useTokenPat)
+		use := eng.GCallOK(f, usePat)
 		noEntry := eng.G(f, `^te == nil$`, true)
 		g := eng.Or(eng.Guard{Desc: use.Desc, Edges: use.Edges}, noEntry)
 		c.Cut(f, "backend dispatch (doRoutingIfApproved)", dispatch, g, nil)
@@ -46,7 +47,7 @@ func runC19(c *eng.Ctx, thorough bool) {
 		c.Cut(f, "branch on the CheckToken verdict (ctErr != nil)", verdictIfs, g, nil)
 		// nil entry from UseToken => return without dispatch
 		c.Clause("R4", "C19.2")
-		for _, u := range eng.Calls(f, `vault\.\(\*TokenStore\)\.UseToken$`) {
+		for _, u := range eng.Calls(f, usePat) {
 			fail := eng.CallFailEdges(u)
 			if h := eng.Reach(eng.Query{Fn: f, StartEdges: fail, Target: eng.IsTarget(dispatch)}); h != nil {
 				c.Violation(f, "on{UseToken failure} no dispatch", h.Instr.Pos(), "dispatch reachable after UseToken failed", h.Witness)
@@ -136,7 +137,8 @@ func runC19(c *eng.Ctx, thorough bool) {
 	// ---- C19.2b the verdict and the last-use test look at UseToken's result, not at the copy made before it
 	if f := c.Fn("vault.(*Core).handleRequest"); f != nil {
 		c.Clause("R5", "C19.2")
-		uses := eng.Calls(f, `vault\.\(\*TokenStore\)\.UseToken$`)
+		useRe := regexp.MustCompile(fwdPat(f, useTokenPat))
+		uses := eng.Calls(f, useRe.String())
 		n := 0
 		for _, pat := range []string{`^te == nil$`, `^te\.NumUses == -1$`} {
 			for _, e := range append(eng.CondEdges(f, pat, true), eng.CondEdges(f, pat, false)...) {
@@ -191,7 +193,7 @@ func runC19(c *eng.Ctx, thorough bool) {
 						continue
 					}
 					cl, isCall := ex.Tuple.(*ssa.Call)
-					if !isCall || !regexp.MustCompile(`vault\.\(\*TokenStore\)\.UseToken$`).MatchString(eng.CalleeName(&cl.Call)) {
+					if !isCall || !useRe.MatchString(eng.CalleeName(&cl.Call)) {
 						ok = false
 					}
 				}
@@ -278,6 +280,11 @@ func runC19(c *eng.Ctx, thorough bool) {
 			"vault.(*Core).RegisterAuth":             "fresh login token literal, NumUses copied from the auth block before the entry is stored",
 			"vault.(*TokenStore).lookupInternal":     "on-read migration of the deprecated num_uses field into the entry just decoded (local copy, before it is returned)",
 		}
+		if ut := c.P.Func("vault.(*TokenStore).UseToken"); ut != nil {
+			if b := useTokenBody(c, ut); b != nil && b != ut {
+				allowed[eng.FuncName(b)] = "locked body of UseToken: only entered with a token lock held (C19.1)"
+			}
+		}
 		for _, w := range c.P.FieldWriters(fv) {
 			if !eng.InPkg(w.Fn, "vault") && !eng.InPkg(w.Fn, "logical") {
 				continue
@@ -294,74 +301,321 @@ func runC19(c *eng.Ctx, thorough bool) {
 	runC19Gaps2(c)
 }
 
+// ---------------------------------------------------------------------------
+// helpers that select sites by what they are rather than how they are written
+
+const useTokenPat = `vault\.\(\*TokenStore\)\.UseToken$`
+const tokenStorePat = `vault\.\(\*TokenStore\)\.store$`
+const tokenLookupPat = `vault\.\(\*TokenStore\)\.lookupInternal$`
+
+// fwdClosures: the closures of f that merely forward to a call matching
+// target (`func(x) R { return target(…, x) }`): exactly one call in the body,
+// matching target, and every return hands that call's results back.
+func fwdClosures(f *ssa.Function, target string) map[*ssa.Function]ssa.CallInstruction {
+	re := regexp.MustCompile(target)
+	out := map[*ssa.Function]ssa.CallInstruction{}
+	for _, cl := range eng.Closures(f) {
+		var calls []ssa.CallInstruction
+		for _, b := range cl.Blocks {
+			for _, in := range b.Instrs {
+				if ci, ok := in.(ssa.CallInstruction); ok {
+					calls = append(calls, ci)
+				}
+			}
+		}
+		if len(calls) != 1 || !re.MatchString(eng.CalleeName(calls[0].Common())) {
+			continue
+		}
+		inner, isCall := calls[0].(*ssa.Call)
+		if !isCall {
+			continue
+		}
+		ok := true
+		for _, r := range eng.Returns(cl) {
+			for _, v := range r.Results {
+				if ex, isEx := v.(*ssa.Extract); isEx {
+					v = ex.Tuple
+				}
+				if v != ssa.Value(inner) {
+					ok = false
+				}
+			}
+		}
+		if ok {
+			out[cl] = calls[0]
+		}
+	}
+	return out
+}
+
+// fwdPat: a callee pattern matching target itself and calls of f's forwarding
+// closures to it (the call site in f stands for the forwarded call).
+func fwdPat(f *ssa.Function, target string) string {
+	p := target
+	for cl := range fwdClosures(f, target) {
+		p += `|^closure:` + regexp.QuoteMeta(eng.FuncName(cl)) + `$`
+	}
+	return p
+}
+
+// fwdArg: argument i of the (possibly forwarded) call to target at call site s.
+func fwdArg(f *ssa.Function, target string, s ssa.CallInstruction, i int) ssa.Value {
+	cc := s.Common()
+	if regexp.MustCompile(target).MatchString(eng.CalleeName(cc)) {
+		if i < len(cc.Args) {
+			return cc.Args[i]
+		}
+		return nil
+	}
+	mc, ok := cc.Value.(*ssa.MakeClosure)
+	if !ok {
+		return nil
+	}
+	cl, _ := mc.Fn.(*ssa.Function)
+	inner := fwdClosures(f, target)[cl]
+	if inner == nil || i >= len(inner.Common().Args) {
+		return nil
+	}
+	if p, ok := inner.Common().Args[i].(*ssa.Parameter); ok {
+		for j, q := range cl.Params {
+			if q == p && j < len(cc.Args) {
+				return cc.Args[j]
+			}
+		}
+	}
+	return nil
+}
+
+// tokenLockCall classifies Lock/Unlock/… calls on a lock that was obtained from
+// locksutil.LockForKey(<…>.tokenLocks, key) — however the lock value is held
+// (SSA value, or a local cell because a closure captures it).
+func tokenLockCall(methods ...string) func(c ssa.CallInstruction) bool {
+	ms := map[string]bool{}
+	for _, m := range methods {
+		ms[m] = true
+	}
+	return func(ci ssa.CallInstruction) bool {
+		return tokenLockKey(ci, ms) != nil
+	}
+}
+
+// tokenLockKey returns the key operand of the LockForKey call behind a token
+// lock operation, nil if ci is not one.
+func tokenLockKey(ci ssa.CallInstruction, ms map[string]bool) ssa.Value {
+	cc := ci.Common()
+	callee := cc.StaticCallee()
+	if cc.IsInvoke() || callee == nil || callee.Signature.Recv() == nil || len(cc.Args) == 0 || !ms[callee.Name()] {
+		return nil
+	}
+	recv := cc.Args[0]
+	for {
+		if fa, ok := recv.(*ssa.FieldAddr); ok {
+			recv = fa.X
+			continue
+		}
+		break
+	}
+	var key ssa.Value
+	for _, o := range eng.Origins(recv) {
+		lk, ok := o.Val.(*ssa.Call)
+		if !ok || !strings.Contains(eng.CalleeName(&lk.Call), "locksutil.LockForKey") || len(lk.Call.Args) < 2 || !strings.HasSuffix(eng.Expr(lk.Call.Args[0]), ".tokenLocks") {
+			return nil
+		}
+		key = lk.Call.Args[1]
+	}
+	return key
+}
+
+// heldByEveryCaller: fn takes no token lock itself and every static call of it
+// in the program executes with a token lock held (a "…Locked" body helper).
+func heldByEveryCaller(c *eng.Ctx, fn *ssa.Function) bool {
+	if fn == nil || fn.Parent() != nil {
+		return false
+	}
+	n := 0
+	for _, caller := range c.P.Funcs {
+		if caller.Pkg != fn.Pkg || len(caller.Blocks) == 0 {
+			continue
+		}
+		var held eng.HeldFunc
+		for _, b := range caller.Blocks {
+			for _, in := range b.Instrs {
+				ci, ok := in.(ssa.CallInstruction)
+				if !ok || ci.Common().StaticCallee() != fn {
+					continue
+				}
+				if held == nil {
+					held = eng.MustHold(caller, tokenLockCall("Lock"), tokenLockCall("Unlock"))
+				}
+				n++
+				if !held(ci) {
+					return false
+				}
+			}
+		}
+	}
+	return n > 0
+}
+
+// useTokenBody: the function that holds UseToken's locked read-modify-write:
+// UseToken itself, or — when the locked statements were moved out — the one
+// function of the package that UseToken calls with the lock held, that carries
+// the re-read, and that only runs under a token lock.
+func useTokenBody(c *eng.Ctx, f *ssa.Function) *ssa.Function {
+	if len(eng.Calls(f, tokenLookupPat)) > 0 {
+		return f
+	}
+	var cand []*ssa.Function
+	seen := map[*ssa.Function]bool{}
+	for _, cl := range eng.Calls(f, `.`) {
+		h := cl.Common().StaticCallee()
+		if h == nil || seen[h] || h.Pkg != f.Pkg || len(h.Blocks) == 0 || h.Parent() != nil {
+			continue
+		}
+		seen[h] = true
+		if len(eng.Calls(h, tokenLookupPat)) > 0 && heldByEveryCaller(c, h) {
+			cand = append(cand, h)
+		}
+	}
+	if len(cand) == 1 {
+		return cand[0]
+	}
+	return nil
+}
+
 // useTokenAtomic: the use count is decremented by a locked read-modify-write.
 // Evaluated for C19.1 and, because the single use of a wrapping token is the
 // same counter, for C18.4.
 func useTokenAtomic(c *eng.Ctx, clause string) {
-	if f := c.Fn("vault.(*TokenStore).UseToken"); f != nil {
-		c.Clause("R9", clause)
-		acquire := eng.LockCall(`LockForKey.*tokenLocks.*\.ID`, "Lock")
-		release := eng.LockCall(`LockForKey.*tokenLocks.*\.ID`, "Unlock")
-		held := eng.MustHold(f, acquire, release)
-		reread := eng.Calls(f, `vault\.\(\*TokenStore\)\.lookupInternal$`)
-		stores := eng.Calls(f, `vault\.\(\*TokenStore\)\.store$`)
-		c.Floor(f, "re-read (lookupInternal)", len(reread), 1)
-		c.Floor(f, "ts.store", len(stores), 1)
-		for _, in := range append(append([]ssa.CallInstruction{}, reread...), stores...) {
-			site := "locked{" + eng.CalleeName(in.Common()) + "}"
-			if held(in) {
-				c.OK(f, site, in.Pos(), "executes with the per-token lock (LockForKey(ts.tokenLocks, te.ID)) held on every path")
-			} else {
-				c.Violation(f, site, in.Pos(), "reachable without holding LockForKey(ts.tokenLocks, te.ID).Lock()", nil)
-			}
-		}
-		// a deferred or explicit Unlock must not precede the store: release sites must come after store on all paths
-		c.Clause("R3", clause)
-		c.Before(f, "re-read under lock", eng.AsInstrs(reread), "ts.store", eng.AsInstrs(stores))
-		// the decrement's operand is the re-read entry
-		c.Clause("R5", clause)
-		decs := eng.Stores(f, `\.NumUses$`)
-		c.Floor(f, "stores to NumUses", len(decs), 2)
-		for _, st := range decs {
-			fa := st.Addr.(*ssa.FieldAddr)
-			c.Prov(f, "base of NumUses store", st, fa.X, `^call:vault\.\(\*TokenStore\)\.lookupInternal#0$`)
-		}
-		for _, s := range stores {
-			c.Prov(f, "entry passed to ts.store", s, s.Common().Args[2], `^call:vault\.\(\*TokenStore\)\.lookupInternal#0$`)
-		}
-		// last use stores the pending marker
-		c.Clause("R2", clause)
-		var marker []ssa.Instruction
-		for _, st := range decs {
-			if cst, ok := st.Val.(*ssa.Const); ok && cst.Int64() == -1 {
-				marker = append(marker, st)
-			}
-		}
-		c.Cut(f, "NumUses = tokenRevocationPending", marker, eng.G(f, `lookupInternal\(\)#0\.NumUses == 1$`, true), nil)
-		// success return only with store success
-		var okRets []ssa.Instruction
-		for _, r := range eng.Returns(f) {
-			vals, _, _ := eng.ReturnVals(r, 1)
-			allNil := true
-			for _, v := range vals {
-				if !eng.AllNilThroughPhi(v) {
-					allNil = false
-				}
-			}
-			ents, _, _ := eng.ReturnVals(r, 0)
-			nonNilEntry := false
-			for _, v := range ents {
-				if !eng.IsNilConst(v) {
-					if _, isParam := v.(*ssa.Parameter); !isParam {
-						nonNilEntry = true
-					}
-				}
-			}
-			if allNil && nonNilEntry {
-				okRets = append(okRets, r)
-			}
-		}
-		c.Cut(f, "return (re-read entry, nil)", okRets, eng.GCallOK(f, `vault\.\(\*TokenStore\)\.store$`), nil)
+	f := c.Fn("vault.(*TokenStore).UseToken")
+	if f == nil {
+		return
 	}
-
+	c.Clause("R9", clause)
+	held := eng.MustHold(f, tokenLockCall("Lock"), tokenLockCall("Unlock"))
+	body := useTokenBody(c, f)
+	if body == nil {
+		c.Undecided(f, "locked{re-read, decrement, store}", f.Pos(), "UseToken neither re-reads the entry itself nor calls exactly one function of its package that does and that only runs under a token lock (moved? the rule cannot be evaluated)")
+		return
+	}
+	storePat := fwdPat(body, tokenStorePat)
+	reread := eng.Calls(body, tokenLookupPat)
+	stores := eng.Calls(body, storePat)
+	c.Floor(body, "re-read (lookupInternal)", len(reread), 1)
+	c.Floor(body, "ts.store", len(stores), 1)
+	if body != f {
+		// the body helper is entered with the lock held (heldByEveryCaller); UseToken's own call is one of those
+		for _, cl := range eng.Calls(f, "^"+regexp.QuoteMeta(eng.FuncName(body))+"$") {
+			if held(cl) {
+				c.OK(f, "locked{"+eng.FuncName(body)+"}", cl.Pos(), "the locked body is called with the per-token lock held; all its callers hold a token lock")
+			} else {
+				c.Violation(f, "locked{"+eng.FuncName(body)+"}", cl.Pos(), "the locked body is reachable without holding the per-token lock", nil)
+			}
+		}
+	}
+	for _, in := range append(append([]ssa.CallInstruction{}, reread...), stores...) {
+		name := eng.CalleeName(in.Common())
+		if strings.HasPrefix(name, "closure:") {
+			name = "vault.(*TokenStore).store"
+		}
+		site := "locked{" + name + "}"
+		switch {
+		case body != f:
+			c.OK(body, site, in.Pos(), "executes in the locked body "+eng.FuncName(body)+", which is only entered with a token lock held")
+		case held(in):
+			c.OK(f, site, in.Pos(), "executes with the per-token lock (LockForKey(ts.tokenLocks, te.ID)) held on every path")
+		default:
+			c.Violation(f, site, in.Pos(), "reachable without holding LockForKey(ts.tokenLocks, te.ID).Lock()", nil)
+		}
+	}
+	// the lock is keyed by the id of the token that is used
+	c.Clause("R5", clause)
+	nk := 0
+	for _, b := range f.Blocks {
+		for _, in := range b.Instrs {
+			ci, ok := in.(ssa.CallInstruction)
+			if !ok {
+				continue
+			}
+			if _, isDefer := in.(*ssa.Defer); isDefer {
+				continue
+			}
+			if key := tokenLockKey(ci, map[string]bool{"Lock": true}); key != nil {
+				nk++
+				c.Prov(f, "key of the per-token lock", ci, key, `^field:te\.ID$`)
+			}
+		}
+	}
+	c.Floor(f, "per-token Lock()", nk, 1)
+	// a deferred or explicit Unlock must not precede the store: release sites must come after store on all paths
+	c.Clause("R3", clause)
+	c.Before(body, "re-read under lock", eng.AsInstrs(reread), "ts.store", eng.AsInstrs(stores))
+	// the decrement's operand is the re-read entry
+	c.Clause("R5", clause)
+	numUses := c.P.Field("logical.TokenEntry.NumUses")
+	type assign struct {
+		at  ssa.Instruction // where the value is chosen: the store, or the end of the arm a phi input arrives from
+		val ssa.Value
+	}
+	var assigns []assign
+	for _, st := range eng.Stores(body, `\.NumUses$`) {
+		if numUses != nil && eng.FieldVar(st.Addr) != numUses {
+			continue
+		}
+		fa := st.Addr.(*ssa.FieldAddr)
+		c.Prov(body, "base of NumUses store", st, fa.X, `^call:vault\.\(\*TokenStore\)\.lookupInternal#0$`)
+		if phi, ok := st.Val.(*ssa.Phi); ok {
+			for i, e := range phi.Edges {
+				pb := phi.Block().Preds[i]
+				assigns = append(assigns, assign{pb.Instrs[len(pb.Instrs)-1], e})
+			}
+		} else {
+			assigns = append(assigns, assign{st, st.Val})
+		}
+	}
+	c.Floor(body, "values assigned to NumUses (decrement and marker)", len(assigns), 2)
+	for _, s := range stores {
+		arg := fwdArg(body, tokenStorePat, s, 2)
+		if arg == nil {
+			c.Undecided(body, "prov{entry passed to ts.store}", s.Pos(), "the entry operand of the forwarded store call could not be related to the call site")
+			continue
+		}
+		c.Prov(body, "entry passed to ts.store", s, arg, `^call:vault\.\(\*TokenStore\)\.lookupInternal#0$`)
+	}
+	// last use stores the pending marker
+	c.Clause("R2", clause)
+	var marker []ssa.Instruction
+	for _, a := range assigns {
+		if cst, ok := a.val.(*ssa.Const); ok && cst.Value != nil && cst.Int64() == -1 {
+			marker = append(marker, a.at)
+		}
+	}
+	c.Cut(body, "NumUses = tokenRevocationPending", marker, eng.G(body, `lookupInternal\(\)#0\.NumUses == 1$`, true), nil)
+	// success return only with store success
+	var okRets []ssa.Instruction
+	for _, r := range eng.Returns(body) {
+		if r.Block().Comment == "recover" {
+			continue
+		}
+		vals, _, _ := eng.ReturnVals(r, 1)
+		allNil := true
+		for _, v := range vals {
+			if !eng.AllNilThroughPhi(v) {
+				allNil = false
+			}
+		}
+		ents, _, _ := eng.ReturnVals(r, 0)
+		nonNilEntry := false
+		for _, v := range ents {
+			if !eng.IsNilConst(v) {
+				if _, isParam := v.(*ssa.Parameter); !isParam {
+					nonNilEntry = true
+				}
+			}
+		}
+		if allNil && nonNilEntry {
+			okRets = append(okRets, r)
+		}
+	}
+	c.Cut(body, "return (re-read entry, nil)", okRets, eng.GCallOK(body, storePat), nil)
 }
